@@ -35,6 +35,9 @@ type Case struct {
 	Config  gen.Config      `json:"config"`
 	Foreign string          `json:"foreign"` // none | change-written | change-unwritten | delete-row | reinsert-deleted | reinsert-identical | back-to-before | change-some
 	Pick    int             `json:"pick"`    // which written row the foreign writer targets
+	// ReadFault k>0: the validation read of the rollback (SELECT … FOR UPDATE on the business table) is
+	// interrupted while its rows are streamed, after k-1 rows; the connection stays usable
+	ReadFault int `json:"read_fault,omitempty"`
 }
 
 var errBusiness = errors.New("business decides to roll back")
@@ -359,7 +362,17 @@ func execute(c Case) *pt.Failure {
 	if j := env.Srv.Journal(); len(j) > 0 {
 		mark = j[len(j)-1].Seq
 	}
+	var rf *memsql.Fault
+	if c.ReadFault > 0 {
+		rf = &memsql.Fault{InRows: true, AfterRows: c.ReadFault - 1, Match: func(e *memsql.Entry) bool {
+			u := e.Upper()
+			return e.Seq > mark && (e.Kind == "Q" || e.Kind == "PQ") && strings.Contains(u, strings.ToUpper(tname)) && strings.Contains(u, "FOR UPDATE")
+		}}
+		env.Srv.AddFault(rf)
+	}
 	st, resp := env.TC.BranchRollback(env.Sess, brs[0], 5*time.Second)
+	env.Srv.ClearFaults()
+	interrupted := rf != nil && rf.Fired() > 0
 	last.status = fmt.Sprint(st)
 	if resp == nil {
 		last.status = "no-response"
@@ -371,6 +384,33 @@ func execute(c Case) *pt.Failure {
 	ctxInfo := fmt.Sprintf("statement: %s %v\nforeign: %s\n%s\n%s", c.Stmt.Text(names), c.Stmt.GoArgs(), c.Foreign, strings.Join(desc, "\n"), atenv.Tail(env.Srv.JournalSince(mark), 12))
 	if _, open, _ := env.Srv.Stats(); open != 0 {
 		return pt.Failf("C09/transaction-left-open/"+kind, "engine transaction left open after the rollback attempt\n%s", ctxInfo)
+	}
+	if interrupted && last.class != "dirty" {
+		// the current rows could not be read: either the attempt fails and changes nothing, or it
+		// claims success, and then the rows are what a rollback leaves
+		last.class += "+read-interrupted"
+		if !rollbacked {
+			if d := atenv.DiffSnap(before, after); d != "" {
+				return pt.Failf("C09/failed-attempt-wrote/"+kind, "the validation read was interrupted and the rollback refused, but the tables changed:%s\n%s", d, ctxInfo)
+			}
+			return nil
+		}
+		for _, r := range rows {
+			var now map[string]memsql.Value
+			for _, x := range env.Srv.Rows(atenv.Schema, tname) {
+				var ks []string
+				for _, p := range tb.PK {
+					ks = append(ks, memsql.RenderValue(lowerIfString(x[p])))
+				}
+				if strings.Join(ks, "|") == r.key {
+					now = x
+				}
+			}
+			if render(now, imageCols) != render(r.before, imageCols) {
+				return pt.Failf("C09/rollbacked-without-reading/"+kind, "the validation read was interrupted, the branch answered Rollbacked, but row %s is {%s}, before image {%s}\n%s", r.key, render(now, imageCols), render(r.before, imageCols), ctxInfo)
+			}
+		}
+		return nil
 	}
 	switch last.class {
 	case "dirty":
@@ -485,6 +525,9 @@ func TestPropForeignWrite(t *testing.T) {
 		c := Case{Tables: tables, Stmt: gen.DrawStmt(rt, tables, stmtOptions()),
 			Config:  gen.Config{Serializer: "json", Compress: rapid.SampledFrom([]string{"None", "None", "Gzip", "Zstd"}).Draw(rt, "compress"), Validation: true, OnlyUpdate: rapid.Bool().Draw(rt, "onlyUpdate")},
 			Foreign: rapid.SampledFrom(foreignKinds).Draw(rt, "foreign"), Pick: rapid.IntRange(0, 5).Draw(rt, "pick")}
+		if rapid.IntRange(0, 5).Draw(rt, "readFault") == 0 {
+			c.ReadFault = rapid.SampledFrom([]int{1, 1, 2}).Draw(rt, "readFaultAt")
+		}
 		fl := runCase(c)
 		record("foreign-write", c)
 		ctx.Judge(rt, "foreign-write", fl, c)
